@@ -36,13 +36,15 @@ def _one(job):
             {"config": config, "text": text}, {"expected_tree": tree, "observed": obs})
 
 
-def run_docs(ctx, rep, profile, maxstmts, owner):
+def run_docs(ctx, rep, profile, maxstmts, owner, keep=None):
     """All generated (label, layout) cases loaded by the real parsers; returns failures (re-attributed to owner when C03)."""
     from ..common import import_pvl
     import_pvl()
     fails = []
     for config in loaders.CONFIGS:
         cases = emit(ctx, rep, config, profile, maxstmts[config] if isinstance(maxstmts, dict) else maxstmts)
+        if keep is not None:
+            keep[config] = cases
         jobs = []
         for c in cases:
             lay = c["lay"]
